@@ -120,6 +120,7 @@ def run(ck: Check, prog: Program) -> None:
                        w.chain())
         _field_guards(ck, prog, f)
         _container_guard(ck, prog, f)
+        _hash_uses(ck, prog, f)
 
     # XOR / SENT-TRUTH on the message model deserialisers and constructors
     model = list(funcs)
@@ -367,6 +368,200 @@ def _container_guard(ck: Check, prog: Program, f: FuncInfo) -> None:
 
 
 
+HASH_METHODS = {'add', 'discard', 'remove', 'get', 'setdefault', 'pop', '__contains__', 'index', 'count'}
+
+
+def hash_use_problems(prog: Program, f: FuncInfo) -> Tuple[int, List[Tuple[int, str, str]]]:
+    """HASH-JSON.  A value read out of the JSON document may be an array or an object, which cannot be hashed: putting it into a
+    set, using it as a mapping key or testing its membership in a set / mapping raises TypeError unless a type test on the same
+    value (resolved per JSON type, as for FIELD-GUARD) keeps arrays and objects away.  Returns (#hash uses examined, problems)."""
+    from ..flow import Flow
+    cfg = CFG(f, prog)
+    jp = json_param(f)
+    fl = Flow(cfg)
+    derived: Set[str] = {jp}
+
+    def is_derived(e: ast.AST, extra: Set[str] = frozenset()) -> bool:     # type: ignore[assignment]
+        if isinstance(e, ast.Name):
+            return e.id in derived or e.id in extra
+        if isinstance(e, ast.Subscript):
+            return is_derived(e.value, extra)
+        if isinstance(e, ast.Call) and isinstance(e.func, ast.Attribute) and e.func.attr in ('get', 'pop', 'values', 'items', 'keys', 'copy'):
+            return is_derived(e.func.value, extra)
+        if isinstance(e, ast.Call) and dotted(e.func) in ('enumerate', 'reversed', 'sorted', 'list', 'tuple', 'iter', 'next') and e.args:
+            return is_derived(e.args[0], extra)
+        if isinstance(e, ast.IfExp):
+            return is_derived(e.body, extra) or is_derived(e.orelse, extra)
+        if isinstance(e, ast.BoolOp):
+            return any(is_derived(v, extra) for v in e.values)
+        if isinstance(e, ast.NamedExpr):
+            return is_derived(e.value, extra)
+        if isinstance(e, ast.Starred):
+            return is_derived(e.value, extra)
+        return False
+    for _ in range(6):
+        before = len(derived)
+        for n in cfg.nodes:
+            a = n.ast
+            if n.kind == 'next' and is_derived(a.iter):
+                derived |= {x.id for x in ast.walk(a.target) if isinstance(x, ast.Name)}
+            elif isinstance(a, (ast.Assign, ast.AnnAssign)) and getattr(a, 'value', None) is not None and is_derived(a.value):
+                for t in (a.targets if isinstance(a, ast.Assign) else [a.target]):
+                    derived |= {x.id for x in ast.walk(t) if isinstance(x, ast.Name)}
+            for frag in node_exprs(n):
+                for x in walk_no_defs(frag):
+                    if isinstance(x, ast.NamedExpr) and is_derived(x.value):
+                        derived.add(x.target.id)
+        if len(derived) == before:
+            break
+
+    def container_kind(e: ast.AST, n: Node) -> Optional[str]:
+        """'set' / 'dict' when the expression is known to be a hash container"""
+        if isinstance(e, (ast.Set, ast.SetComp)):
+            return 'set'
+        if isinstance(e, (ast.Dict, ast.DictComp)):
+            return 'dict'
+        if isinstance(e, ast.Call) and dotted(e.func) in ('set', 'frozenset'):
+            return 'set'
+        if isinstance(e, ast.Call) and dotted(e.func) in ('dict', 'collections.defaultdict', 'defaultdict', 'collections.OrderedDict', 'OrderedDict'):
+            return 'dict'
+        if isinstance(e, ast.Call) and isinstance(e.func, ast.Attribute) and e.func.attr == 'copy':
+            return container_kind(e.func.value, n)
+        if isinstance(e, ast.Name):
+            if e.id == jp or e.id in derived:
+                return None
+            for st in walk_own(f.node):
+                if isinstance(st, ast.AnnAssign) and isinstance(st.target, ast.Name) and st.target.id == e.id:
+                    ann = norm(st.annotation)
+                    if ann.startswith(('Set', 'set', 'FrozenSet', 'frozenset', 'typing.Set')):
+                        return 'set'
+                    if ann.startswith(('Dict', 'dict', 'typing.Dict', 'Mapping', 'MutableMapping', 'DefaultDict')):
+                        return 'dict'
+            kinds = set()
+            for al in fl.alts(n, e):
+                if al.expr is e or isinstance(al.expr, ast.Name):
+                    return None
+                kinds.add(container_kind(al.expr, n))
+            if len(kinds) == 1:
+                return next(iter(kinds))
+            return None
+        if isinstance(e, ast.Attribute) and dotted(e.value) in ('self', 'cls'):
+            # instance state declared as a set / mapping in the class
+            ci = f.cls
+            while ci is not None:
+                ann = ci.attr_ann.get(e.attr) if hasattr(ci, 'attr_ann') else None
+                if ann is not None:
+                    t = norm(ann)
+                    if t.startswith(('Set', 'set', 'FrozenSet')):
+                        return 'set'
+                    if t.startswith(('Dict', 'dict', 'Mapping', 'DefaultDict')):
+                        return 'dict'
+                break
+        return None
+    uses: List[Tuple[Node, ast.AST, str]] = []
+    for n in cfg.nodes:
+        if n.kind in ('entry', 'exit', 'raise', 'handler', 'reraise'):
+            continue
+        for frag in node_exprs(n):
+            for x in ast.walk(frag):
+                comp_targets: Set[str] = set()
+                if isinstance(x, (ast.SetComp, ast.DictComp, ast.GeneratorExp, ast.ListComp)):
+                    for g in x.generators:
+                        if is_derived(g.iter, comp_targets):
+                            comp_targets |= {y.id for y in ast.walk(g.target) if isinstance(y, ast.Name)}
+                if isinstance(x, ast.SetComp) and is_derived(x.elt, comp_targets):
+                    if not _comp_guarded(x, x.elt):
+                        uses.append((n, x.elt, f'element of the set `{norm(x)[:50]}`'))
+                elif isinstance(x, ast.DictComp) and is_derived(x.key, comp_targets):
+                    if not _comp_guarded(x, x.key):
+                        uses.append((n, x.key, f'key of the mapping `{norm(x)[:50]}`'))
+                elif isinstance(x, ast.Call) and dotted(x.func) in ('set', 'frozenset', 'dict.fromkeys') and x.args:
+                    a0 = x.args[0]
+                    if isinstance(a0, (ast.GeneratorExp, ast.ListComp)):
+                        ct: Set[str] = set()
+                        for g in a0.generators:
+                            if is_derived(g.iter, ct):
+                                ct |= {y.id for y in ast.walk(g.target) if isinstance(y, ast.Name)}
+                        if is_derived(a0.elt, ct) and not _comp_guarded(a0, a0.elt):
+                            uses.append((n, a0.elt, f'element of `{norm(x)[:50]}`'))
+                    elif is_derived(a0):
+                        uses.append((n, a0, f'elements of `{norm(x)[:50]}`'))
+                elif isinstance(x, ast.Set):
+                    for el in x.elts:
+                        if is_derived(el):
+                            uses.append((n, el, f'element of the set `{norm(x)[:50]}`'))
+                elif isinstance(x, ast.Dict):
+                    for k in x.keys:
+                        if k is not None and is_derived(k):
+                            uses.append((n, k, f'key of the mapping `{norm(x)[:50]}`'))
+                elif isinstance(x, ast.Compare) and len(x.ops) == 1 and isinstance(x.ops[0], (ast.In, ast.NotIn)) and is_derived(x.left):
+                    if container_kind(x.comparators[0], n) is not None:
+                        uses.append((n, x.left, f'membership test `{norm(x)[:60]}`'))
+                elif isinstance(x, ast.Call) and isinstance(x.func, ast.Attribute) and x.func.attr in HASH_METHODS and x.args and \
+                        is_derived(x.args[0]) and not is_derived(x.func.value):
+                    ck_ = container_kind(x.func.value, n)
+                    if ck_ is not None and not (ck_ == 'dict' and x.func.attr in ('index', 'count')):
+                        uses.append((n, x.args[0], f'`{norm(x)[:60]}`'))
+                elif isinstance(x, ast.Subscript) and is_derived(x.slice) and not is_derived(x.value) and container_kind(x.value, n) == 'dict':
+                    uses.append((n, x.slice, f'key in `{norm(x)[:60]}`'))
+                elif isinstance(x, ast.Call) and dotted(x.func) == 'hash' and x.args and is_derived(x.args[0]):
+                    uses.append((n, x.args[0], f'`{norm(x)[:60]}`'))
+    problems: List[Tuple[int, str, str]] = []
+    for n, e, what in uses:
+        var = e.id if isinstance(e, ast.Name) else None
+        reaches = {'list', 'dict'}
+        if var is not None and var != jp:
+            conds = []
+            for c in cfg.nodes:
+                if c.kind != 'cond':
+                    continue
+                ckd = classify_cond(prog, f, c.ast)
+                if ckd.subject != var:
+                    continue
+                if ckd.kind == 'isinstance':
+                    names = set(ckd.detail.split(','))
+                    if names <= {'bool', 'int', 'float', 'str', 'list', 'dict', 'tuple', 'NoneType'}:
+                        conds.append((c, names, ckd.negated))
+                elif ckd.kind == 'is-none':
+                    conds.append((c, {'NoneType'}, ckd.negated))
+            starts = fl.defs_at(n, var) or [cfg.entry]
+            reaches = set()
+            for tag in ('list', 'dict'):
+                wrong = []
+                for c, names, negated in conds:
+                    holds = (tag in names) != negated
+                    wrong += [ed for ed in cfg.succ[c.id] if ed.label in ('T', 'F') and (ed.label == 'T') != holds]
+                if any(n.id in cfg.reachable(d, avoid_edges=wrong) or d is n for d in starts):
+                    reaches.add(tag)
+        if reaches:
+            kinds = ' or '.join('a JSON array' if t == 'list' else 'a JSON object' for t in sorted(reaches))
+            problems.append((n.line, f'unhashable JSON value hashed: {what[:60]}',
+                             f'{what}: `{norm(e)}` comes out of the JSON document and can be {kinds} here; hashing it raises TypeError '
+                             f'(unhashable type), which is neither DeserializationError nor IdentityError'))
+    return len(uses), problems
+
+
+def _comp_guarded(comp: ast.AST, e: ast.expr) -> bool:
+    """a condition of the comprehension restricts the hashed expression to scalars: `.. if isinstance(<e>, (int, str))`"""
+    for g in comp.generators:       # type: ignore[attr-defined]
+        for c in g.ifs:
+            for t in (c.values if isinstance(c, ast.BoolOp) and isinstance(c.op, ast.And) else [c]):
+                if isinstance(t, ast.Call) and dotted(t.func) == 'isinstance' and len(t.args) == 2 and norm(t.args[0]) == norm(e):
+                    names = {dotted(y) for y in (t.args[1].elts if isinstance(t.args[1], ast.Tuple) else [t.args[1]])}
+                    if names <= {'int', 'str', 'bool', 'float', 'bytes'}:
+                        return True
+    return False
+
+
+def _hash_uses(ck: Check, prog: Program, f: FuncInfo) -> int:
+    n, problems = hash_use_problems(prog, f)
+    ck.ob('HASH-JSON', f'{short(f.qualname)}: {n} set / mapping-key use(s) of values taken from the JSON document, none can be an array or object',
+          not problems, sample={'hash_uses': n})
+    for line, construct, msg in problems:
+        ck.finding('HASH-JSON', f.qualname, construct, f.module.rel, line, msg)
+    return n
+
+
 def dup_check_problems(prog: Program, f: FuncInfo) -> List[Tuple[int, str]]:
     """_add_ids: an id is skipped only when it `is None`; an id already present raises IdentityError."""
     cfg = CFG(f, prog)
@@ -531,6 +726,14 @@ def _empty_batch_request(ck: Check, prog: Program) -> None:
 
 
 MUTANTS = [
+    dict(name='batch-ids-prescanned-into-a-set', file='pjrpc/common/v20.py',
+         find='        return cls(*(Request.from_json(request) for request in data))',
+         replace='        seen = {item.get("id") for item in data if isinstance(item, dict)}\n        del seen\n'
+                 '        return cls(*(Request.from_json(request) for request in data))', expect='HASH-JSON'),
+    dict(name='response-id-used-as-mapping-key-before-its-type-check', file='pjrpc/common/v20.py', nth=0,
+         find="            id = json_data.get('id')\n            if id is not None and (isinstance(id, bool) or not isinstance(id, (int, str))):",
+         replace="            id = json_data.get('id')\n            seen: Dict[Any, int] = {}\n            seen[id] = 1\n"
+                 "            if id is not None and (isinstance(id, bool) or not isinstance(id, (int, str))):", expect=['HASH-JSON', 'FIELD-GUARD']),
     dict(name='drop-method-type-check', file='pjrpc/common/v20.py',
          find="            if not isinstance(method, str):\n                raise DeserializationError(\"field 'method' must be of type string\")\n",
          replace='', expect='FIELD-GUARD'),
